@@ -41,6 +41,19 @@ def decompose_to_symbols(vlist, base, res=[]) -> List[Symbol]:
         return [new_symb]
 
 
+def _leaf_symbols(prefix, ttype):
+    """The bit symbols of a value of type ttype whose bits are named prefix.<i>...."""
+    if ttype == bool:
+        return [Symbol(prefix)]
+    if hasattr(ttype, "BIT_SIZE"):
+        return [Symbol(f"{prefix}.{i}") for i in range(ttype.BIT_SIZE)]
+    return [
+        s
+        for i, t in enumerate(get_args(ttype))
+        for s in _leaf_symbols(f"{prefix}.{i}", t)
+    ]
+
+
 def translate_expression(expr, env: Env) -> TExp:  # noqa: C901
     """Translate an expression"""
 
@@ -107,8 +120,11 @@ def translate_expression(expr, env: Env) -> TExp:  # noqa: C901
                 inner_type,
                 [Symbol(f"{sn}.{i}") for i in range(inner_type.BIT_SIZE)],
             )
+        elif inner_type == bool:
+            return (bool, Symbol(sn))
         else:
-            return (inner_type, Symbol(sn))
+            # an element that is itself a tuple: the flat list of its bits, as for a name
+            return (inner_type, _leaf_symbols(sn, inner_type))
 
     # Boolop: and, or
     elif isinstance(expr, ast.BoolOp):
